@@ -227,7 +227,7 @@ func c12Exec(t map[string]any, idx int) map[string]any {
 }
 
 func C12(c *core.Ctx) {
-	c.Rule = "case = (placement {whole disk, GPT partition, MBR partition}, history of 0..D CreateFilesystem calls over {fat12,fat16,fat32,ext4,iso9660,squashfs} on the same range (stale bytes of the previous type stay), size class {8 MiB, smallest size the last type accepts, largest size it accepts up to 600 MiB}), all enumerated by TLC (D = 2 quick, 3 thorough); the disk is re-opened read-only with default options and GetFilesystem / GetPartitionTable are asked; non-trivial = at least one Create accepted (distinct key = tuple); plus the composition behaviours of Disk.tla (three slots, GPT/MBR tables naming subsets of them, filesystems of all six types created, populated, raw-copied and overwritten; after every call every named slot must report the type, label and files the model predicts and the table must be the one written)"
+	c.Rule = "case = (placement {whole disk, GPT partition, MBR partition}, history of 0..D CreateFilesystem calls over {fat12,fat16,fat32,ext4,iso9660,squashfs} on the same range (stale bytes of the previous type stay), size class {8 MiB, smallest size the last type accepts, largest size it accepts up to 600 MiB}), all enumerated by TLC (D = 2 quick, 3 thorough); the disk is re-opened read-only with default options and GetFilesystem / GetPartitionTable are asked; non-trivial = at least one Create accepted (distinct key = tuple); plus a disk with 4096-byte logical sectors (fat32 / squashfs on the whole disk and in a GPT partition, on blank bytes and over a previous filesystem); plus the composition behaviours of Disk.tla (three slots, GPT/MBR tables naming subsets of them, filesystems of all six types created, populated, raw-copied and overwritten; after every call every named slot must report the type, label and files the model predicts and the table must be the one written)"
 	c.Assumptions = []string{"ISO9660 / squashfs are created the documented way (LogicalBlocksize set to 2048 / 4096 for CreateFilesystem); labels are compared right-trimmed; squashfs has no label", "size thresholds found by bisection of Create's acceptance in [16 KiB, 600 MiB]"}
 	mc, err := tlc.Run(tlc.Opts{Module: "Probe", Config: "Probe_MC.cfg", Workers: 2})
 	if err != nil {
@@ -278,4 +278,134 @@ func C12(c *core.Ctx) {
 	// the composition (Disk.tla): several partitions, filesystems created / rebuilt / copied in them,
 	// the table rewritten in between (table, fs and result clauses of Disk_Trace)
 	dkRunAll(c, "C12")
+	// disks with 4096-byte logical sectors
+	c12Sector4k(c)
+}
+
+// C12Sector4k is a development entry (not registered): the 4096-byte-sector class alone.
+func C12Sector4k(c *core.Ctx) { c12Sector4k(c) }
+
+// c12Sector4k: the same question on a disk with 4096-byte logical sectors (diskfs.WithSectorSize(4096)): every
+// type that can be created there - whole disk and in a GPT partition, on blank bytes and over a finalized
+// squashfs - must be reported as what it is, with label and marker, by a freshly opened disk.
+func c12Sector4k(c *core.Ctx) {
+	const lss, size = 4096, 64 << 20
+	type k4 struct{ T, Place, Prev string }
+	var cases []k4
+	for _, T := range []string{"fat32", "squashfs"} { // ext4.Create refuses 4096-byte sectors
+		for _, pl := range []string{"whole", "gpt"} {
+			for _, prev := range []string{"blank", "squashfs", "fat32"} {
+				if prev != T {
+					cases = append(cases, k4{T, pl, prev})
+				}
+			}
+		}
+	}
+	created := 0
+	refused := map[string]string{}
+	for _, kc := range cases {
+		d := memdev.New(size)
+		part := 0
+		var setupErr error
+		mk := func(T, label string) error {
+			dk, err := diskfs.OpenBackend(file.New(d, false), diskfs.WithOpenMode(diskfs.ReadWrite), diskfs.WithSectorSize(diskfs.SectorSize4k))
+			if err != nil {
+				return err
+			}
+			if part != 0 {
+				if _, err := dk.GetPartitionTable(); err != nil {
+					return fmt.Errorf("no table: %w", err)
+				}
+			}
+			var fs filesystem.FileSystem
+			if p := fsx.Catch(func() {
+				fs, err = dk.CreateFilesystem(disk.FilesystemSpec{Partition: part, FSType: c12Types[T], VolumeLabel: label})
+			}); p != "" {
+				return fmt.Errorf("panic in CreateFilesystem: %s", p)
+			}
+			if err != nil {
+				return err
+			}
+			if err := fsx.WriteFile(fs, c12Marker, []byte("marker of "+T+" "+label)); err != nil {
+				return fmt.Errorf("marker: %w", err)
+			}
+			if f, ok := fs.(*squashfs.FileSystem); ok {
+				ws := f.Workspace()
+				err = f.Finalize(squashfs.FinalizeOptions{})
+				os.RemoveAll(ws)
+			}
+			return err
+		}
+		if kc.Place == "gpt" {
+			part = 1
+			fsx.Catch(func() {
+				dk, err := diskfs.OpenBackend(file.New(d, false), diskfs.WithOpenMode(diskfs.ReadWrite), diskfs.WithSectorSize(diskfs.SectorSize4k))
+				if err != nil {
+					setupErr = err
+					return
+				}
+				setupErr = dk.Partition(&gpt.Table{LogicalSectorSize: lss, PhysicalSectorSize: lss, ProtectiveMBR: true, Partitions: []*gpt.Partition{{Index: 1, Start: 256, End: 256 + (48<<20)/lss - 1, Type: gpt.LinuxFilesystem, Name: "p1"}}})
+			})
+			if setupErr != nil {
+				c.Broken("sector4k: table not written: %v", setupErr)
+				return
+			}
+		}
+		key := fmt.Sprintf("%s/%s/over-%s", kc.T, kc.Place, kc.Prev)
+		if kc.Prev != "blank" {
+			if err := mk(kc.Prev, "OLDVOL"); err != nil {
+				refused[key] = "previous: " + err.Error()
+				continue
+			}
+		}
+		if err := mk(kc.T, "NEWVOL"); err != nil {
+			refused[key] = err.Error()
+			continue
+		}
+		created++
+		c.AddEval(1)
+		c.Distinct("sector4k " + key)
+		got, label, marker, perr := "", "", "", ""
+		perr = fsx.Catch(func() {
+			dk, err := diskfs.OpenBackend(file.New(d, true), diskfs.WithSectorSize(diskfs.SectorSize4k))
+			if err != nil {
+				got = "open-error: " + err.Error()
+				return
+			}
+			fs, err := dk.GetFilesystem(part)
+			if err != nil {
+				got = "error: " + err.Error()
+				return
+			}
+			got = c12TypeName(fs.Type())
+			label = strings.TrimRight(fs.Label(), " ")
+			if b, err := fs.ReadFile(c12Marker); err == nil {
+				marker = string(b)
+			} else {
+				marker = "error: " + err.Error()
+			}
+		})
+		wantLabel := "NEWVOL"
+		if kc.T == "squashfs" {
+			wantLabel = ""
+		}
+		switch {
+		case perr != "":
+			c.Fail([]string{"probe-panic-sector4096"}, fmt.Sprintf("4096-byte sectors, %s: GetFilesystem panics: %s", key, perr), kc)
+		case got != kc.T:
+			c.Fail([]string{fmt.Sprintf("probe-%s-read-as-other-sector4096", kc.T)}, fmt.Sprintf("4096-byte sectors, %s: GetFilesystem on a freshly opened disk reports %q", key, got), kc)
+		case label != wantLabel:
+			c.Fail([]string{fmt.Sprintf("probe-%s-label-sector4096", kc.T)}, fmt.Sprintf("4096-byte sectors, %s: label %q, expected %q", key, label, wantLabel), kc)
+		case marker != "marker of "+kc.T+" NEWVOL":
+			c.Fail([]string{fmt.Sprintf("probe-%s-content-sector4096", kc.T)}, fmt.Sprintf("4096-byte sectors, %s: marker file reads %q", key, marker), kc)
+		default:
+			c.TracesValidated++
+		}
+	}
+	c.Extra["sector4k_cases"] = len(cases)
+	c.Extra["sector4k_created"] = created
+	c.Extra["sector4k_refused"] = refused
+	if created*2 < len(cases) {
+		c.Broken("sector4k: only %d of %d cases could be created (vacuous): %v", created, len(cases), refused)
+	}
 }
